@@ -106,6 +106,21 @@ func (core *JApiCore) setPathVariablesToCatalog() *jerr.JApiError {
 	return nil
 }
 
+// enterPathSchemaType marks a user type as being walked by the checks of a Path
+// schema. ok is false when it already is: user types may refer to themselves
+// (`TYPE @a` with the body `@a // {nullable: true}`, or through each other), and
+// the walk must not follow such a reference for ever.
+func (core *JApiCore) enterPathSchemaType(key string) (leave func(), ok bool) {
+	if core.pathSchemaTypesInCheck == nil {
+		core.pathSchemaTypesInCheck = map[string]struct{}{}
+	}
+	if _, found := core.pathSchemaTypesInCheck[key]; found {
+		return nil, false
+	}
+	core.pathSchemaTypesInCheck[key] = struct{}{}
+	return func() { delete(core.pathSchemaTypesInCheck, key) }, true
+}
+
 func (core *JApiCore) checkPathSchema(s *jschema.JSchema) error {
 	if err := core.checkPathSchemaRoot(s); err != nil {
 		return err
@@ -137,6 +152,14 @@ func (core *JApiCore) checkPathSchemaRoot(s *jschema.JSchema) error {
 			// a user type with the regex / any / empty notation is not an object
 			return errors.New(jerr.PathObjectErr)
 		}
+
+		leave, ok := core.enterPathSchemaType("root " + typeName)
+		if !ok {
+			// the type refers to itself (`TYPE @a` with the body `@a // {nullable: true}`
+			// is a valid schema): it never becomes an object
+			return errors.New(jerr.PathObjectErr)
+		}
+		defer leave()
 
 		return core.checkPathSchemaRoot(es.JSchema)
 	}
@@ -193,6 +216,12 @@ func (core *JApiCore) checkPathSchemaPropertyInAllOf(typeName string) error {
 		return fmt.Errorf(`%s (%s)`, jerr.UserTypeNotFound, typeName)
 	}
 
+	leave, ok := core.enterPathSchemaType("allOf " + typeName)
+	if !ok {
+		return nil // already being checked further up
+	}
+	defer leave()
+
 	if err := core.checkPathSchema(es.JSchema); err != nil {
 		return err
 	}
@@ -247,6 +276,12 @@ func (core *JApiCore) checkPathSchemaPropertyUserType(typeName string) error {
 	if err != nil {
 		return errors.New(jerr.RuntimeFailure)
 	}
+
+	leave, ok := core.enterPathSchemaType("property " + typeName)
+	if !ok {
+		return nil // the type refers to itself: already being checked further up
+	}
+	defer leave()
 
 	if err := core.checkPathSchemaProperty(rootNode); err != nil {
 		return err
